@@ -3031,6 +3031,11 @@ func (l *channelLink) processRemoteAdds(fwdPkg *channeldb.FwdPkg) {
 	// settle/fail update.
 	unackedAdds := make([]*lnwire.UpdateAddHTLC, 0, len(fwdPkg.Adds))
 
+	// unackedIdx holds, for every entry of unackedAdds, the index of that
+	// ADD within the forwarding package. The two differ as soon as an
+	// earlier ADD of the package is skipped because it was already acked.
+	unackedIdx := make([]uint16, 0, len(fwdPkg.Adds))
+
 	for i, update := range fwdPkg.Adds {
 		// If this index is already found in the ack filter, the
 		// response to this forwarding decision has already been
@@ -3060,6 +3065,7 @@ func (l *channelLink) processRemoteAdds(fwdPkg *channeldb.FwdPkg) {
 
 			decodeReqs = append(decodeReqs, req)
 			unackedAdds = append(unackedAdds, msg)
+			unackedIdx = append(unackedIdx, uint16(i))
 		}
 	}
 
@@ -3083,7 +3089,7 @@ func (l *channelLink) processRemoteAdds(fwdPkg *channeldb.FwdPkg) {
 	var switchPackets []*htlcPacket
 
 	for i, update := range unackedAdds {
-		idx := uint16(i)
+		idx := unackedIdx[i]
 		sourceRef := fwdPkg.SourceRef(idx)
 		add := *update
 
